@@ -777,6 +777,18 @@ are sorted by `le` (a total order on whole elements) -/
 def canonRuns {α : Type} (cmp : α → α → Int) (le : α → α → Bool) (a : List α) : List α :=
   ((a.splitBy fun x y => cmp x y == 0).map fun run => run.mergeSort le).flatten
 
+/-- the lexicographic order "by the comparator, then by `le`" (a total order on whole
+elements when `cmp` is consistent and `le` is a total order) -/
+def lexLe {α : Type} (cmp : α → α → Int) (le : α → α → Bool) (x y : α) : Bool :=
+  decide (cmp x y < 0) || (cmp x y == 0 && le x y)
+
+/-- the canonical form the driver prints: the output sorted by `lexLe`.  On an output
+that is ordered by `cmp` (every output of the model is: `qsort_sorted`) this only
+rearranges the elements inside each run of equal elements, i.e. it is `canonRuns`,
+the form the harness computes from the real code's output. -/
+def canonLex {α : Type} (cmp : α → α → Int) (le : α → α → Bool) (a : List α) : List α :=
+  a.mergeSort (lexLe cmp le)
+
 /-- the run of elements comparing equal to the key around index `i` (first, last) -/
 def equalRun {κ α : Type} (cmp : κ → α → Int) (key : κ) (a : List α) (i : Nat) : Nat × Nat :=
   (i - ((a.take i).reverse.takeWhile fun x => cmp key x == 0).length,
